@@ -33,8 +33,8 @@ Cfgs == {[lv |-> lv, sc |-> sc, tgt |-> t, routed |-> r, rec |-> rc, enc |-> e] 
            r \in BOOLEAN, rc \in BOOLEAN, e \in BOOLEAN}
 ValidCfg(c) == Len(c.sc) = c.lv[1] + c.lv[2] + c.lv[3]
 
-VARIABLES cfg, pc, idx, stk, passing, w, obj, pan, mon, nreq, free, badWrite, pair
-vars == <<cfg, pc, idx, stk, passing, w, obj, pan, mon, nreq, free, badWrite, pair>>
+VARIABLES cfg, pc, idx, stk, passing, w, obj, pan, mon, nreq, free, badWrite, pair, who
+vars == <<cfg, pc, idx, stk, passing, w, obj, pan, mon, nreq, free, badWrite, pair, who>>
 
 NAll == cfg.lv[1] + cfg.lv[2] + cfg.lv[3]
 \* filters that run: all three levels for a routed request, container filters otherwise
@@ -43,7 +43,7 @@ Script(i) == cfg.sc[i]
 
 Init == /\ cfg \in {c \in Cfgs : ValidCfg(c)}
         /\ pc = "start" /\ idx = 0 /\ stk = <<>> /\ passing = {} /\ w = "raw" /\ obj = 0 /\ pan = FALSE
-        /\ mon = MonInit(0, FALSE, 1, 1) /\ nreq = 0 /\ free = {} /\ badWrite = FALSE /\ pair = 1
+        /\ mon = MonInit(0, FALSE, 1, 1) /\ nreq = 0 /\ free = {} /\ badWrite = FALSE /\ pair = 1 /\ who = 0
 
 Emit(m, e) == Step(m, e)
 AttrsSeen(i) == 1..(i - 1)   \* every earlier filter set its attribute before passing
@@ -58,7 +58,7 @@ Start ==
         /\ obj' = IF wrap THEN o ELSE 0
         /\ free' = IF wrap THEN free \ {o} ELSE free
   /\ idx' = IF SharedChain THEN idx ELSE 0
-  /\ pc' = "chain" /\ pair' = 1 /\ stk' = <<>> /\ passing' = {} /\ pan' = FALSE
+  /\ pc' = "chain" /\ pair' = 1 /\ stk' = <<>> /\ passing' = {} /\ pan' = FALSE /\ who' = 0
   /\ UNCHANGED <<cfg, nreq, badWrite>>
 
 \* FilterChain.ProcessFilter
@@ -66,31 +66,31 @@ Chain ==
   /\ pc = "chain"
   /\ IF idx < NRun
      THEN /\ idx' = idx + 1 /\ stk' = Append(stk, idx + 1)
-          /\ mon' = Emit(mon, Ev("enter", idx + 1, pair, pair, AttrsSeen(idx + 1)))
+          /\ mon' = Emit(mon, EvW("enter", idx + 1, pair, pair, AttrsSeen(idx + 1), who))
           /\ pc' = "filter" /\ UNCHANGED pan
      ELSE /\ mon' = IF cfg.tgt = "panic"
-                    THEN Emit(Emit(mon, Ev("target", 0, pair, pair, AttrsSeen(NRun + 1))), Ev("panic", 0, 0, 0, {}))
-                    ELSE Emit(mon, Ev("target", 0, pair, pair, AttrsSeen(NRun + 1)))
+                    THEN Emit(Emit(mon, EvW("target", 0, pair, pair, AttrsSeen(NRun + 1), who)), Ev("panic", 0, 0, 0, {}))
+                    ELSE Emit(mon, EvW("target", 0, pair, pair, AttrsSeen(NRun + 1), who))
           /\ pan' = (cfg.tgt = "panic")
           /\ pc' = IF cfg.tgt = "panic" THEN "defers" ELSE "unwind"
           /\ UNCHANGED <<idx, stk>>
-  /\ UNCHANGED <<cfg, passing, w, obj, nreq, free, badWrite, pair>>
+  /\ UNCHANGED <<cfg, passing, w, obj, nreq, free, badWrite, pair, who>>
 
 InFilter ==
   /\ pc = "filter"
   /\ LET i == Top(stk)   s == Script(i) IN
      CASE s \in {"pass", "pa"} ->
-            /\ mon' = Emit(mon, Ev("pass", i, pair, pair, {})) /\ passing' = passing \cup {i}
-            /\ pc' = "chain" /\ UNCHANGED <<stk, pan, pair>>
+            /\ mon' = Emit(mon, EvW("pass", i, pair, pair, {}, i)) /\ passing' = passing \cup {i}
+            /\ who' = i /\ pc' = "chain" /\ UNCHANGED <<stk, pan, pair>>
        [] s = "replace" ->
-            /\ mon' = Emit(mon, Ev("pass", i, pair + 1, pair + 1, {})) /\ passing' = passing \cup {i}
-            /\ pair' = pair + 1 /\ pc' = "chain" /\ UNCHANGED <<stk, pan>>
+            /\ mon' = Emit(mon, EvW("pass", i, pair + 1, pair + 1, {}, i)) /\ passing' = passing \cup {i}
+            /\ who' = i /\ pair' = pair + 1 /\ pc' = "chain" /\ UNCHANGED <<stk, pan>>
        [] s = "stop" ->
             /\ mon' = Emit(mon, Ev("exit", i, 0, 0, {})) /\ stk' = Pop(stk)
-            /\ pc' = "unwind" /\ UNCHANGED <<passing, pan, pair>>
+            /\ pc' = "unwind" /\ UNCHANGED <<passing, pan, pair, who>>
        [] s = "pb" ->
             /\ mon' = Emit(mon, Ev("panic", i, 0, 0, {})) /\ pan' = TRUE
-            /\ pc' = "defers" /\ UNCHANGED <<stk, passing, pair>>
+            /\ pc' = "defers" /\ UNCHANGED <<stk, passing, pair, who>>
   /\ UNCHANGED <<cfg, idx, w, obj, nreq, free, badWrite>>
 
 Unwind ==
@@ -102,7 +102,7 @@ Unwind ==
                /\ passing' = passing \ {i} /\ pan' = TRUE /\ pc' = "defers" /\ UNCHANGED stk
           ELSE /\ mon' = Emit(Emit(mon, Ev("ret", i, 0, 0, {})), Ev("exit", i, 0, 0, {}))
                /\ passing' = passing \ {i} /\ stk' = Pop(stk) /\ pc' = "unwind" /\ UNCHANGED pan
-  /\ UNCHANGED <<cfg, idx, w, obj, nreq, free, badWrite, pair>>
+  /\ UNCHANGED <<cfg, idx, w, obj, nreq, free, badWrite, pair, who>>
 
 \* the two deferred functions of dispatch: registered close first, recover second => recover
 \* runs first and may still write through the (possibly compressing) writer
@@ -115,14 +115,14 @@ Defers ==
   /\ w' = IF w = "open" /\ ~(NoCloseOnPanic /\ pan) THEN "closed" ELSE w
   /\ free' = IF w = "open" /\ ~(NoCloseOnPanic /\ pan) THEN free \cup {obj} ELSE free
   /\ pc' = "end"
-  /\ UNCHANGED <<cfg, idx, stk, passing, obj, pan, nreq, pair>>
+  /\ UNCHANGED <<cfg, idx, stk, passing, obj, pan, nreq, pair, who>>
 
 End ==
   /\ pc = "end"
   /\ mon' = Emit(mon, Ev("end", IF pan /\ ~cfg.rec THEN 1 ELSE 0, 0, 0, {}))
   /\ nreq' = nreq + 1
   /\ pc' = IF nreq + 1 < 2 THEN "start" ELSE "done"
-  /\ UNCHANGED <<cfg, idx, stk, passing, w, obj, pan, free, badWrite, pair>>
+  /\ UNCHANGED <<cfg, idx, stk, passing, w, obj, pan, free, badWrite, pair, who>>
 
 Next == Start \/ Chain \/ InFilter \/ Unwind \/ Defers \/ End
 Spec == Init /\ [][Next]_vars
